@@ -280,7 +280,7 @@ macro_rules! impl_signed_for_int {
         impl AbsOrd for $t {
             #[inline]
             fn abs_cmp(&self, rhs: &Self) -> Ordering {
-                self.abs().cmp(&rhs.abs())
+                self.unsigned_abs().cmp(&rhs.unsigned_abs())
             }
         }
     )*};
